@@ -149,6 +149,7 @@ class Ctx:
         self.module = module
         self.obligs = []
         self.loop_ord = 0
+        self.loop_cuts = {}
         self.loop_index = {}
         self.yield_ord = 0
         self.solver_checks = 0
@@ -168,6 +169,47 @@ def feasible(st, ctx, timeout_ms=3000):
     ctx.solver_checks += 1
     r = logic.solve(st.pc, [], timeout_ms=timeout_ms, want_model=False, mode="qf")
     return r.status != "proved"
+
+
+def _same_dict(a, b):
+    return a.keys() == b.keys() and all(a[k] is b[k] or (isinstance(a[k], z3.ExprRef) and isinstance(b[k], z3.ExprRef)
+                                                           and a[k].eq(b[k])) for k in a)
+
+
+def _merge_twins(outs, st):
+    """an if-statement whose two branches leave exactly the same state (e.g. a test on bookkeeping outside the model
+    followed by a statement without modelled effect) continues as one path: the branch condition is forgotten"""
+    nxt = [o for o in outs if o.kind == "next"]
+    if len(nxt) != 2 or len(outs) != 2:
+        return outs
+    a, b = nxt[0].state, nxt[1].state
+    n = len(st.pc)
+    if not (len(a.pc) == n + 1 and len(b.pc) == n + 1 and len(a.hyps) == len(b.hyps) == len(st.hyps)):
+        return outs
+    ca, cb = a.pc[-1], b.pc[-1]
+    if not (z3.is_not(ca) and ca.arg(0).eq(cb) or z3.is_not(cb) and cb.arg(0).eq(ca)):
+        return outs
+    if not (_same_dict(a.f, b.f) and _same_dict(a.h, b.h) and _same_dict(a.loc, b.loc)):
+        return outs
+    if not (a.next_id is b.next_id or a.next_id.eq(b.next_id)) or not (a.now is b.now or a.now.eq(b.now)):
+        return outs
+    if any(a.ghost.get(k) is not b.ghost.get(k) and a.ghost.get(k) != b.ghost.get(k) for k in set(a.ghost) | set(b.ghost)):
+        return outs
+    m = a.fork()
+    m.pc = list(a.pc[:n])
+    m.trace = list(a.trace[:-1]) if a.trace else []
+    return [Outcome("next", m)]
+
+
+def _stored_names(node):
+    return {n.id for n in ast.walk(node) if isinstance(n, ast.Name) and isinstance(n.ctx, ast.Store)}
+
+
+def _inv_props(spec, item):
+    """a loop-invariant clause may carry its own property tags (third component) next to the loop-wide ones"""
+    if len(item) > 2 and item[2]:
+        return tuple(sorted(set(spec.props) | set(item[2])))
+    return spec.props
 
 
 class Exec:
@@ -972,6 +1014,32 @@ class Exec:
                 raise Unsupported("enumerate of %r" % (base,))
             at = base.at
             return [(SList(base.len, lambda i: VTuple([Num(i), at(i)]), ("tuple", [("num", "int"), base.ekind])), st)]
+        if (name == "getattr" and len(args) == 3 and isinstance(args[1], VStr) and z3.is_int_value(args[1].t)
+                and isinstance(args[2], VNone) and isinstance(self.deref(args[0], st), VObj)):
+            # getattr(obj, "name", None): the attribute's value, or None when the object has no such attribute
+            # (whether it has one is not tracked for arbitrary attributes: unconstrained)
+            attr = V.str_of_code(args[1].t.as_long())
+            fake = ast.Attribute(value=node.args[0], attr=attr, ctx=ast.Load())
+            ast.copy_location(fake, node)
+            outs = []
+            for v, s in self.eval(fake, st):
+                if isinstance(v, Exc):
+                    outs.append((NONE, s))
+                    continue
+                v = self.deref(v, s)
+                b = z3.Bool("missing!%s" % logic.fresh("n").decl().name().split("!")[1])
+                if isinstance(v, VOpt):
+                    outs.append((VOpt(z3.Or(b, v.isnone), v.val), s))
+                elif isinstance(v, VNone):
+                    outs.append((NONE, s))
+                else:
+                    outs.append((VOpt(b, v), s))
+            return outs
+        if name == "list" and len(args) == 1:
+            base = self.deref(args[0], st)
+            if not isinstance(base, SList):
+                raise Unsupported("list() of %r" % (base,))
+            return [(SList(base.len, base.at, base.ekind), st)]     # a snapshot: later writes do not show
         if name == "bool" and len(args) == 1:
             return [(VBool(V.truth(self.deref(args[0], st))), st)]
         if name == "str" or name == "id" or name == "repr":
@@ -1250,7 +1318,7 @@ class Exec:
                 continue
             for b, s2 in self.branch(s, V.truth(self.deref(c, s)), node.lineno):
                 outs.extend(self.exec_block(node.body if b else node.orelse, s2))
-        return outs
+        return _merge_twins(outs, st)
 
     def s_Assign(self, node, st):
         if isinstance(node.value, (ast.Yield, ast.YieldFrom)):
@@ -1513,13 +1581,34 @@ class Exec:
                 s0.loc["__it%d" % ordinal] = it
             entry = s0
             # 1. invariant holds on entry
-            for nm, cl in spec.inv(self, entry, entry, "prove"):
-                ctx.oblige("loop%d.init.%s" % (ordinal, nm), entry, [cl], "loop-init", node.lineno, spec.props)
+            for item in spec.inv(self, entry, entry, "prove"):
+                nm, cl = item[0], item[1]
+                ctx.oblige("loop%d.init.%s" % (ordinal, nm), entry, [cl], "loop-init", node.lineno,
+                           _inv_props(spec, item))
             # 2. arbitrary iteration
             sh = entry.fork()
+            if getattr(spec, "cut", False):
+                # cut point: the head state keeps nothing of the path that led here (path condition and
+                # path-specific ghost state are dropped), so one exploration of the loop stands for every entry;
+                # locals that survive the havoc must be the very same symbolic values for every entry
+                live = {n.id for n in ast.walk(ctx.fnode) if isinstance(n, ast.Name) and isinstance(n.ctx, ast.Load)
+                        and n.lineno >= node.lineno} | {k for k in entry.loc if k.startswith("__")}
+                keep = {k: v for k, v in entry.loc.items() if k not in _stored_names(node) and k in live}
+                for k in list(sh.loc):
+                    if k not in keep and k not in _stored_names(node):
+                        sh.loc[k] = None        # dead from here on (never read at or after the loop)
+                seen = ctx.loop_cuts.get(ordinal)
+                if seen is not None:
+                    if set(seen) != set(keep) or any(seen[k] is not keep[k] for k in keep):
+                        raise Unsupported("cut loop #%d entered with different locals (line %d)" % (ordinal, node.lineno))
+                    continue
+                ctx.loop_cuts[ordinal] = keep
+                sh.pc, sh.hyps = list(ctx.old.pc), list(ctx.old.hyps)
+                sh.trace = [t for t in sh.trace if False] + ["cut@L%d" % node.lineno]
+                spec.cut_ghost(sh)
             spec.havoc(self, sh, node, ordinal)
-            for nm, cl in spec.inv(self, entry, sh, "assume"):
-                sh.assume(cl)
+            for item in spec.inv(self, entry, sh, "assume"):
+                sh.assume(item[1])
             # 3. loop test
             if kind == "while":
                 tests = []
@@ -1557,9 +1646,10 @@ class Exec:
                 ctx.loop_ord = saved_ord
                 for o in self.exec_block(node.body, s):
                     if o.kind in ("next", "continue"):
-                        for nm, cl in spec.inv(self, entry, o.state, "prove"):
+                        for item in spec.inv(self, entry, o.state, "prove"):
+                            nm, cl = item[0], item[1]
                             ctx.oblige("loop%d.preserve.%s" % (ordinal, nm), o.state, [cl], "loop-preserve",
-                                       node.lineno, spec.props)
+                                       node.lineno, _inv_props(spec, item))
                         if spec.variant is not None:
                             ctx.oblige("loop%d.variant" % ordinal, o.state,
                                        [spec.variant(self, s, o.state)], "loop-variant", node.lineno, spec.props)
